@@ -122,7 +122,7 @@ macro_rules! store_instance {
 //@ timeout: 1200
 //@ mem: 12
 //@ unwindset: mmap_append=170; one_store=110; prestate=110; memcmp.0=20
-//@ cbmc: --max-field-sensitivity-array-size 800
+//@ cbmc: --max-field-sensitivity-array-size 1100
 //@ encodes: EventStore::new, EventStore::store_event, EventStore::get_event_by_offset, EventStore::read_event_map_end
 //@ bounds: one store_event from an existing 256-byte file whose end marker e has the residue named by the harness (r = e mod 8) with arbitrary bytes in [8, e) and an arbitrary event image of 152..160 bytes; fits / ends exactly at the file end / one byte short so the file grows by one chunk. Offset = e rounded up to 8, end = offset+len <= file length, read-back byte-identical (mapping and file), bytes below e unchanged, reopen gives the same end and bytes
 //@ outside: e and the file length are concrete per instance (the code uses e only through e mod 8 and e+pad+len > L: that the instances partition the cases is an argument by reading); events larger than 160 bytes; OS-level durability
@@ -139,7 +139,7 @@ store_instance!(c04_store_r0_grow, 153, 256, 104, true);
 //@ timeout: 1200
 //@ mem: 12
 //@ unwindset: mmap_append=170; one_store=110; prestate=110; memcmp.0=20
-//@ cbmc: --max-field-sensitivity-array-size 800
+//@ cbmc: --max-field-sensitivity-array-size 1100
 //@ encodes: EventStore::new, EventStore::store_event, EventStore::get_event_by_offset
 //@ bounds: as the quick instances, remaining residues
 store_instance!(c04_store_r1_fits, 152, 256, 17, false);
@@ -158,7 +158,7 @@ store_instance!(c04_store_r4_exact, 152, 256, 100, false);
 //@ mem: 12
 //@ covers: none
 //@ unwindset: mmap_append=170; memcmp.0=20
-//@ cbmc: --max-field-sensitivity-array-size 800
+//@ cbmc: --max-field-sensitivity-array-size 1100
 //@ encodes: EventStore::new (creation path), EventStore::store_event
 //@ bounds: no file yet: new() creates it with one chunk (256 bytes under the verification hook; 2048 in dev builds) and end marker 8; the first arbitrary 152-byte event is stored at offset 8 and reads back identical
 #[kani::proof]
@@ -243,7 +243,7 @@ macro_rules! history_instance {
 //@ timeout: 1500
 //@ mem: 14
 //@ unwindset: mmap_append=170; memcmp.0=20
-//@ cbmc: --max-field-sensitivity-array-size 800
+//@ cbmc: --max-field-sensitivity-array-size 1100
 //@ encodes: EventStore::store_event (alignment padding, file growth + remap, retry loop), EventStore::get_event_by_offset
 //@ bounds: from a fresh store (one 256-byte chunk under the hook), two arbitrary events of the sizes named by the harness: the second one needs alignment padding of 0/7/3 bytes and does not fit, so the file grows by a chunk and the mapping moves; offsets are 8 and the aligned end, both events read back byte-identical after the growth
 //@ outside: event sizes other than the instances; more than one growth step
@@ -256,7 +256,56 @@ history_instance!(c04_history_157_160, 157, 160, false);
 //@ timeout: 2400
 //@ mem: 16
 //@ unwindset: mmap_append=170; memcmp.0=20
-//@ cbmc: --max-field-sensitivity-array-size 800
+//@ cbmc: --max-field-sensitivity-array-size 1100
 //@ encodes: EventStore::store_event, EventStore::get_event_by_offset
 //@ bounds: three arbitrary events (153, 152, 152 bytes): the third fits after the growth; the first still reads back identical, offsets strictly increase
 history_instance!(c04_history_three, 153, 152, true);
+
+//@ harness: c04_reopen_then_grow
+//@ tier: quick
+//@ timeout: 1800
+//@ mem: 16
+//@ unwindset: mmap_append=800; memcmp.0=20; c04_reopen=50; file_set_len=600
+//@ cbmc: --max-field-sensitivity-array-size 1100
+//@ encodes: EventStore::new (existing multi-chunk file), EventStore::store_event (growth after reopen), EventStore::get_event_by_offset
+//@ bounds: an existing file of three chunks (768 bytes) whose end marker is 640, with 40 arbitrary earlier bytes at 600..640, is opened with the real EventStore::new; an arbitrary 152-byte event is stored, which needs the file to grow: the file is then four chunks long (never shorter than before), the earlier bytes are unchanged, the new event reads back identical at offset 640
+//@ outside: other file sizes; more than one growth after reopening
+#[kani::proof]
+#[kani::unwind(4)]
+#[kani::stub(core::panic::Location::caller, stub_caller)]
+#[kani::stub(<std::io::Error as std::fmt::Display>::fmt, stub_io_error_fmt)]
+#[kani::stub(<std::io::Error as std::string::ToString>::to_string, stub_io_to_string)]
+#[kani::stub(std::fs::File::set_len, stub_set_len)]
+#[kani::stub(std::fs::OpenOptions::open, stub_open)]
+#[kani::stub(std::fs::File::metadata, stub_metadata)]
+#[kani::stub(std::fs::Metadata::len, stub_metadata_len)]
+fn c04_reopen_then_grow() {
+    mmap_append::verif::set_file(true, 768);
+    let d = mmap_append::verif::data();
+    d[0] = (640 & 0xff) as u8;
+    d[1] = (640 >> 8) as u8;
+    let mut before = [0u8; 40];
+    let mut i = 0;
+    while i < 40 {
+        let b: u8 = kani::any();
+        d[600 + i] = b;
+        before[i] = b;
+        i += 1;
+    }
+    let store = ok!(EventStore::new("/s/event.map"));
+    assert!(store.read_event_map_end() == 640);
+    let mut buf: [u8; 152] = kani::any();
+    let ev = any_event::<152>(&mut buf);
+    let off = ok!(store.store_event(ev));
+    assert!(off == 640 && store.read_event_map_end() == 792);
+    assert!(mmap_append::verif::file_len() == 1024);
+    let k: usize = kani::any();
+    kani::assume(k < 40);
+    kani::cover!(k == 39);
+    assert!(mmap_append::verif::data()[600 + k] == before[k]);
+    let got = ok!(unsafe { store.get_event_by_offset(off) });
+    let j: usize = kani::any();
+    kani::assume(j < 152);
+    assert!(got.as_bytes()[j] == buf[j]);
+    core::mem::forget(store);
+}
